@@ -376,13 +376,21 @@ def by_action(g):
     return dict(sorted(c.items()))
 
 
-def read_ndjson(path):
+def read_ndjson(path, tolerant=False):
+    """tolerant: a line that is not JSON (a writer that died in the middle of a record, or records of a dying child
+    interleaved with the parent's) becomes a crash record instead of an exception of the driver."""
     out = []
     with open(path) as f:
-        for line in f:
+        for n, line in enumerate(f):
             line = line.strip()
             if line:
-                out.append(json.loads(line))
+                try:
+                    out.append(json.loads(line))
+                except json.JSONDecodeError:
+                    if not tolerant:
+                        raise
+                    out.append({"kind": "crash", "signal": 0, "where": "malformed record %d of %s (the writer died): %s"
+                                % (n + 1, os.path.basename(path), line[:200])})
     return out
 
 
@@ -550,7 +558,7 @@ def replay(graph, binaries, workdir, env=None, shards=4, banned=frozenset(), tim
     run_parallel(cmds, timeout=timeout, env=env, ok_codes=(0, 3))
     summaries, devs, crashes = {}, [], []
     for o in outs:
-        for rec in read_ndjson(o):
+        for rec in read_ndjson(o, tolerant=True):
             k = rec.get("kind")
             if k == "summary":
                 s = summaries.setdefault(rec["cfg"], {"behaviours": 0, "steps": 0, "skipped": 0, "deviations": 0})
